@@ -1,6 +1,9 @@
 package main
 
-import "go/ast"
+import (
+	"go/ast"
+	"strconv"
+)
 
 // regenerated facts of the "proxy" family (C03 C05 C06 C17)
 
@@ -159,6 +162,43 @@ func factsProxy() {
 	chainFn := body(fn(pmg, "responseDeduplicator", "chainSeriesAndRemIdenticalChunks"))
 	emitList("chainFieldOrder", "pkg/store/proxy_merge.go chainSeriesAndRemIdenticalChunks: the fields of a chunk, in the order they are looked at",
 		compositeElems(chainFn, "storepb.Chunk"))
+	// ---- C03: sortWithoutLabels strips and then sorts, unconditionally
+	{
+		var shape []string
+		nret := 0
+		if swl := fn(pmg, "", "sortWithoutLabels"); swl != nil && swl.Body != nil {
+			for _, st := range swl.Body.List {
+				switch x := st.(type) {
+				case *ast.RangeStmt:
+					shape = append(shape, "range "+text(x.X))
+				case *ast.IfStmt:
+					shape = append(shape, "if "+text(x.Cond))
+				case *ast.ReturnStmt:
+					shape = append(shape, "return")
+				case *ast.ExprStmt:
+					if call, ok := x.X.(*ast.CallExpr); ok {
+						shape = append(shape, "call "+text(call.Fun))
+					} else {
+						shape = append(shape, text(st))
+					}
+				default:
+					shape = append(shape, text(st))
+				}
+			}
+			// return statements of the function itself (not of the comparator closure)
+			ast.Inspect(swl.Body, func(n ast.Node) bool {
+				if _, ok := n.(*ast.FuncLit); ok {
+					return false
+				}
+				if _, ok := n.(*ast.ReturnStmt); ok {
+					nret++
+				}
+				return true
+			})
+		}
+		emitList("sortWithoutLabelsShape", "pkg/store/proxy_merge.go sortWithoutLabels: its top-level statements (strip loop, then sort.Slice)", shape)
+		emitStr("sortWithoutLabelsReturns", "pkg/store/proxy_merge.go sortWithoutLabels: number of return statements outside the comparator (no early exit before the sort)", strconv.Itoa(nret))
+	}
 	emitStr("chainSortLess", "pkg/store/proxy_merge.go chainSeriesAndRemIdenticalChunks: the comparator of sort.Slice", sortSliceLess(chainFn))
 	bt := parse("pkg/store/batchable.go")
 	emitStr("batchFlushCond", "pkg/store/batchable.go batchableServer.Send: when a batch is sent",
